@@ -1018,10 +1018,18 @@ def run_entry(fullname, what, seed=0, only_label=None):
 if __name__ == "__main__":  # /venv/bin/python contracts/C18_replay.py [substr] : run every harness (all clauses) on the real package
     import json
     import sys
-    sys.path.insert(0, os.environ.get("PYVC_REPO", "/repo"))
-    sub = sys.argv[1] if len(sys.argv) > 1 else ""
     import logging
     logging.disable(logging.CRITICAL)
+    if len(sys.argv) >= 5 and sys.argv[1] == "--one":      # --one <repo> <module.qualname> <frame|history|file|all> [seed]
+        sys.path.insert(0, sys.argv[2])
+        try:
+            res = run_entry(sys.argv[3], sys.argv[4], int(sys.argv[5]) if len(sys.argv) > 5 else 0)
+        except Exception as e:  # noqa
+            res = {"ran": False, "failed": False, "error": f"{type(e).__name__}: {e}"}
+        print("C18-REPLAY " + json.dumps(res, default=str))
+        sys.exit(0)
+    sys.path.insert(0, os.environ.get("PYVC_REPO", "/repo"))
+    sub = sys.argv[1] if len(sys.argv) > 1 else ""
     nfail = 0
     for name in sorted(specs()):
         if sub in name:
